@@ -65,4 +65,13 @@ def joinWith (sep : UInt8) : List Bytes → Bytes
   | [x] => x
   | x :: y :: r => x ++ sep :: joinWith sep (y :: r)
 
+/-- split on a separator byte: always at least one piece -/
+def splitOnByte (sep : UInt8) : Bytes → List Bytes
+  | [] => [[]]
+  | c :: r =>
+    if c == sep then [] :: splitOnByte sep r
+    else match splitOnByte sep r with
+      | [] => [[c]]
+      | x :: xs => (c :: x) :: xs
+
 end GB.C20
